@@ -191,6 +191,120 @@ def Mon.run (b : Int) : Mon → List Ev → Option Mon
 
 def Mon.accepts (b : Int) (m : Mon) (evs : List Ev) : Bool := (Mon.run b m evs).isSome
 
+/-! ## `NewHandler` with its optional initial health check -/
+
+/-- `NewHandler`: every main upstream active, no failure recorded; when
+`HealthcheckInitDuration > 0` one `refresh` follows at once (`init` are its probes). -/
+def St.new (c : Cfg) (init : Option (Nat → Probe)) : St × List Ev :=
+  match init with
+  | none => (St.init c, [])
+  | some pr => ((refresh c (St.init c) pr).1, (refresh c (St.init c) pr).2.1)
+
+/-- Histories of a handler built by `NewHandler`. -/
+def runNew (c : Cfg) (init : Option (Nat → Probe)) (ops : List Op) : St × List Ev :=
+  ((run c (St.new c init).1 ops).1, (St.new c init).2 ++ (run c (St.new c init).1 ops).2)
+
+/-! ## Queries arriving while a health-check round is running
+
+`healthcheck` probes the upstreams one after the other without holding the lock and stores the
+new active list only after the loop.  A query served meanwhile therefore still picks from the
+list that was active when the round began. -/
+
+structure QArgs where
+  pick : Nat
+  om : Nat → Outcome
+  pickFb : Nat
+  ofb : Nat → Outcome
+
+def qEv (c : Cfg) (s : St) (q : QArgs) : Ev :=
+  .query (serve c s q.pick q.om q.pickFb q.ofb).calls (serve c s q.pick q.om q.pickFb q.ofb).res
+
+/-- Events of an interleaved history: the old ones plus the moment a round's result is stored. -/
+inductive IEv where
+  | ev (e : Ev)
+  | roundEnd
+deriving DecidableEq, Repr
+
+/-- One iteration of the loop with the queries `during u` served first (from the state `s` the
+round started in). -/
+def hcOneI (c : Cfg) (s : St) (pr : Nat → Probe) (during : Nat → List QArgs) (a : HcAcc) (u : Nat) :
+    HcAcc :=
+  hcOne c.backoff pr { lf := a.lf, act := a.act, evs := a.evs ++ (during u).map (qEv c s) } u
+
+def hcFoldI (c : Cfg) (s : St) (pr : Nat → Probe) (during : Nat → List QArgs) (k : Nat) : HcAcc :=
+  (List.range k).foldl (hcOneI c s pr during) { lf := s.lastFailed, act := [], evs := [] }
+
+/-- `refresh` with concurrent queries: `during u` arrive while the loop is at upstream `u`,
+`during nMain` after the loop and before the new list is stored.  Without fallbacks `refresh`
+returns at once: there is no round (and the queries are ordinary ones). -/
+def refreshI (c : Cfg) (s : St) (pr : Nat → Probe) (during : Nat → List QArgs) : St × List IEv :=
+  if c.nFb = 0 then (s, [])
+  else
+    let a := hcFoldI c s pr during c.nMain
+    ({ active := a.act, lastFailed := a.lf },
+      a.evs.map .ev ++ (during c.nMain).map (fun q => .ev (qEv c s q)) ++ [.roundEnd])
+
+inductive IOp where
+  | query (q : QArgs)
+  | refresh (pr : Nat → Probe) (during : Nat → List QArgs)
+
+def stepI (c : Cfg) (s : St) : IOp → St × List IEv
+  | .query q => (s, [.ev (qEv c s q)])
+  | .refresh pr during => refreshI c s pr during
+
+def runI (c : Cfg) : St → List IOp → St × List IEv
+  | s, [] => (s, [])
+  | s, o :: os => ((runI c (stepI c s o).1 os).1, (stepI c s o).2 ++ (runI c (stepI c s o).1 os).2)
+
+/-- Reference monitor for interleaved histories.  `last` as in `Mon`; `barred u` says that the
+most recent probe of `u`, as of the end of the last completed round, failed.  Probes obey the
+backoff with respect to `last`; queries must avoid the barred upstreams. -/
+structure Mon2 where
+  last : Nat → Option (Option Int)
+  barred : Nat → Bool
+
+def Mon2.init : Mon2 := { last := fun _ => none, barred := fun _ => false }
+
+def lastFailedP (l : Option (Option Int)) : Bool :=
+  match l with
+  | some (some _) => true
+  | _ => false
+
+def Mon2.step (b : Int) (m : Mon2) : IEv → Option Mon2
+  | .ev (.query calls _) =>
+    if (callsMain calls).all (fun u => !m.barred u) then some m else none
+  | .ev (.probe u t ok tf) =>
+    match m.last u with
+    | some (some f) =>
+      if t - f < b then none
+      else some { last := fun j => if j = u then some (if ok then none else some tf) else m.last j,
+                  barred := m.barred }
+    | _ => some { last := fun j => if j = u then some (if ok then none else some tf) else m.last j,
+                  barred := m.barred }
+  | .roundEnd => some { last := m.last, barred := fun u => lastFailedP (m.last u) }
+
+def Mon2.run (b : Int) : Mon2 → List IEv → Option Mon2
+  | m, [] => some m
+  | m, e :: r => match m.step b e with
+    | none => none
+    | some m' => Mon2.run b m' r
+
+def Mon2.accepts (b : Int) (m : Mon2) (evs : List IEv) : Bool := (Mon2.run b m evs).isSome
+
+/-! ## `checkUpstream`: when a health probe counts as succeeded -/
+
+/-- What `Exchange` gave the probe: a response with its RCODE, an error, or `nil, nil`. -/
+inductive PRes where
+  | resp (rcode : Nat)
+  | err
+  | nil
+deriving DecidableEq, Repr
+
+/-- `checkUpstream`: success iff there is a response and its RCODE is NOERROR. -/
+def checkUpstream : PRes → Bool
+  | .resp rc => rc == 0
+  | _ => false
+
 /-! ## Plain upstream level: `validatePlainResponse` and `UpstreamPlain.Exchange` -/
 
 /-- ASCII case folding of one byte of a presentation-format name. -/
@@ -208,6 +322,8 @@ structure Msg where
   qs : List Question
   tc : Bool
   tok : Nat
+  /-- the RCODE of the header; only the health probe looks at it -/
+  rcode : Nat := 0
 deriving DecidableEq, Repr
 
 inductive VRes where
@@ -261,6 +377,15 @@ def XRes.expectedConnErr : XRes → Bool
   | .eof => true
   | _ => false
 
+/-- The retry in `exchangeNet`: when the first attempt (usually on a pooled connection) ends with
+an expected connection error (`net.Error` or EOF), the request is sent once more on a fresh
+connection and that attempt's result is final. -/
+def retryWire (w1 w2 : Wire) : Wire :=
+  match w1 with
+  | .netErr => w2
+  | .eof => w2
+  | _ => w1
+
 /-- `UpstreamPlain.Exchange` (with `exchangeUDP` inlined): the result and whether TCP was used. -/
 def exchange (net : Net) (reqId : Nat) (q : Question) (udp tcp : Wire) : XRes × Bool :=
   if net = .tcp then (exchangeNet reqId q tcp, true)
@@ -271,6 +396,15 @@ def exchange (net : Net) (reqId : Nat) (q : Question) (udp tcp : Wire) : XRes ×
     | .netErr => (.netErr, false)
     | .eof => (.eof, false)
     | .other => (exchangeNet reqId q tcp, true)
+
+/-- `Exchange` with both attempts of each transport spelled out. -/
+def exchangeR (net : Net) (reqId : Nat) (q : Question) (udp1 udp2 tcp1 tcp2 : Wire) : XRes × Bool :=
+  exchange net reqId q (retryWire udp1 udp2) (retryWire tcp1 tcp2)
+
+/-- How `checkUpstream` sees the result of `Exchange`. -/
+def XRes.probe : XRes → PRes
+  | .ok m => .resp m.rcode
+  | _ => .err
 
 /-- How `ServeDNS` classifies the result of `Exchange`. -/
 def XRes.outcome : XRes → Outcome
@@ -315,9 +449,9 @@ def parseQs : Nat → List Nat → Option (List Question)
 
 /-- `dns.Msg.Unpack` restricted to header and questions. -/
 def parseMsg : List Nat → Option Msg
-  | i1 :: i2 :: f1 :: _ :: q1 :: q2 :: _ :: _ :: _ :: _ :: _ :: _ :: body =>
+  | i1 :: i2 :: f1 :: f2 :: q1 :: q2 :: _ :: _ :: _ :: _ :: _ :: _ :: body =>
     (parseQs (q1 * 256 + q2) body).map
-      (fun qs => { id := i1 * 256 + i2, qs := qs, tc := (f1 / 2) % 2 = 1, tok := 0 })
+      (fun qs => { id := i1 * 256 + i2, qs := qs, tc := (f1 / 2) % 2 = 1, tok := 0, rcode := f2 % 16 })
   | _ => none
 
 def minDNSMessageSize : Nat := 17
@@ -329,5 +463,21 @@ def readMsg (buf : List Nat) (n : Nat) : Option Msg :=
 /-- `readMsg` before the fix: the whole buffer was unpacked. -/
 def readMsgWholeBuffer (buf : List Nat) (n : Nat) : Option Msg :=
   if n < minDNSMessageSize then none else parseMsg buf
+
+/-- What one attempt of `exchangeNet` gets from the connection: `n` bytes read into the pooled
+buffer `buf`, or a connection-level failure. -/
+inductive Raw where
+  | bytes (buf : List Nat) (n : Nat)
+  | netErr
+  | eof
+deriving DecidableEq, Repr
+
+/-- `readMsg` in front of `validatePlainResponse`: the `Wire` a raw read amounts to. -/
+def Raw.wire : Raw → Wire
+  | .bytes buf n => match readMsg buf n with
+    | some m => .msg m
+    | none => .bad
+  | .netErr => .netErr
+  | .eof => .eof
 
 end Agd.Forward
